@@ -26,7 +26,10 @@ if rc != 0 and os.path.exists('/verif/seeded/%s/patch-rebased.diff' % tag):
     # the agent's worktree predates a later hook/fix commit touching the same lines: use the rebased patch (same change)
     patch = '/verif/seeded/%s/patch-rebased.diff' % tag
     rc, o = sh('git apply %s' % patch, cwd=wt); res['patch_applies'] = rc == 0; res['used_rebased_patch'] = True
-runsh = open(os.path.join(out, 'demo/run.sh')).read().strip().splitlines()[-1].replace(orig_wt, wt)
+# run the agent's run.sh as a script (from the worktree root), with its worktree path replaced by the fresh one
+_rs = open(os.path.join(out, 'demo/run.sh')).read().replace(orig_wt, wt)
+_tmp = os.path.join(out, 'demo', 'run_fresh.sh'); open(_tmp, 'w').write(_rs)
+runsh = 'cd %s && %s bash %s' % (wt, os.environ.get('SEED_DEMO_ENV', ''), _tmp)
 res['demo_cmd'] = runsh
 rc, o = sh('cargo build --offline -j6 2>&1 | tail -3', cwd=wt); res['builds_with_change'] = 'error' not in o
 rc, o = sh('cargo test --workspace --no-fail-fast --offline -j6 -- --test-threads 4 2>&1 | grep -E "^test result|FAILED|panicked" | head -20', cwd=wt)
@@ -60,7 +63,10 @@ os.makedirs(dst, exist_ok=True)
 shutil.copy(os.path.join(out, 'patch.diff'), os.path.join(dst, 'patch.diff'))
 shutil.rmtree(os.path.join(dst, 'demo'), ignore_errors=True); shutil.copytree(os.path.join(out, 'demo'), os.path.join(dst, 'demo'))
 agent_meta = json.load(open(os.path.join(out, 'meta.json'))) if os.path.exists(os.path.join(out, 'meta.json')) else {}
-meta = {'breaks_property': pid, 'author': 'independent sub-agent given only the property text and a scratch worktree',
+_old = {}
+try: _old = json.load(open(os.path.join(dst, 'meta.json')))
+except Exception: pass
+meta = {'lead_note': _old.get('lead_note', ''), 'breaks_property': pid, 'author': 'independent sub-agent given only the property text and a scratch worktree',
         'what_changed': agent_meta.get('what_changed'), 'why_it_breaks_the_property': agent_meta.get('why_it_breaks_the_property'),
         'needs_to_manifest': agent_meta.get('what_it_needs_to_manifest'), 'confirmed_by_lead': res}
 def trim(x):
